@@ -49,8 +49,8 @@ theorem tRegexError_ni (st : LexState) (p : Nat) (h : st.newlineIdx ≠ []) : No
   rw [hc]
   simp
 
-theorem plyToken_error_nonempty (s : LexerState) (text : List Char) (pos p : Nat)
-    (h : plyToken s text pos = .error p) : text.drop p ≠ [] := by
+theorem plyToken_error_nonempty (s : LexerState) (text : List Char) (pos p : Nat) {ap : Bool}
+    (h : plyToken s text pos ap = .error p) : text.drop p ≠ [] := by
   unfold plyToken at h
   simp only at h
   split at h
